@@ -323,11 +323,32 @@ SLACK_US = 3000          # TracePrison: undecided zone on either side of a decis
 WIDE_US = 1000           # an arrival whose call took longer than this tells nothing
 
 
-def prison_case(th, p, j, arr, kind="scaled"):
+ACTIONS = ["CLOSE", "FINISH", "PASS", "REQ_HEADER_SET"]      # the actions mod_prison.md lists
+
+
+def prison_case(th, p, j, arr, kind="scaled", rules=None):
+    """rules: the product's ordered rule list [{th, action}, ..] (all match every request);
+    default one CLOSE rule with threshold th."""
+    rules = rules or [{"th": th, "action": "CLOSE"}]
     if kind == "real":
-        return {"th": th, "kind": "real", "cp_us": 1000000, "sp_us": 1000000, "tick_us": REAL_TICK_US, "arr": arr}
+        return {"th": th, "kind": "real", "cp_us": 1000000, "sp_us": 1000000, "tick_us": REAL_TICK_US, "arr": arr,
+                "rules": rules}
     return {"th": th, "kind": "scaled", "cp_us": p * TICK_US + TICK_US // 2, "sp_us": j * TICK_US,
-            "tick_us": TICK_US, "arr": arr}
+            "tick_us": TICK_US, "arr": arr, "rules": rules}
+
+
+def rule_lists(ctx, n, stream):
+    """Seeded two-rule lists over all action kinds; thresholds differ so that one rule jails while the
+    other still counts."""
+    import random
+    rnd = random.Random(ctx.seed * 7927 + stream)
+    out = []
+    for i in range(n):
+        a1, a2 = ACTIONS[i % 4], ACTIONS[(i // 4) % 4]       # all 16 ordered pairs in turn
+        t1 = rnd.randint(0, 2)
+        t2 = rnd.randint(0, 3)
+        out.append([{"th": t1, "action": a1}, {"th": t2, "action": a2}])
+    return out
 
 
 def seeded_schedules(ctx, num, stream, maxt=40):
@@ -365,15 +386,16 @@ def run_prison(ctx, cases, label=""):
         raise vlib.MachineryError("mods1 prison harness failed: %s" % str(crash[:2])[:1500])
     events = [r for r in res if "ev" in r]
     narr = sum(len(c["arr"]) for c in cases)
-    if len(events) != narr + len(cases):
-        raise vlib.MachineryError("mods1 prison: %d events for %d arrivals" % (len(events), narr))
+    want = sum((len(c["arr"]) + 1) * len(c["rules"]) for c in cases)
+    if len(events) != want:
+        raise vlib.MachineryError("mods1 prison: %d events, expected %d" % (len(events), want))
     by_id = {c["id"]: c for c in cases}
     nbad = 0
     for e in events:
         info = e.pop("info", None)
         if info:
             nbad += 1
-            c = by_id[e["cid"]]
+            c = by_id[e["cid"] // 10]
             ctx.report("prison/%s/th%d/%s" % ("panic" if info.startswith("panic") else "result", c["th"], c["kind"]),
                        info[:800], case={k: c[k] for k in c if k != "id"}, harness="mods1", cmd="prison")
     trace = "".join(json.dumps(e, separators=(",", ":")) + "\n" for e in events)
@@ -384,22 +406,27 @@ def run_prison(ctx, cases, label=""):
         raise vlib.MachineryError("trace validation did not complete (%s): %s %s" %
                                   (label, r.error or r.violation, r.out[-600:]))
     rep = rep[0]
-    ctx.traces(len(cases))
+    ctx.traces(sum(len(c["rules"]) for c in cases))
     for b in rep["bad"]:
         nbad += 1
-        c = by_id[b["cid"]]
+        c = by_id[b["cid"] // 10]
+        ri = b["cid"] % 10
+        rule = c["rules"][ri - 1]
         ev = events[b["l"] - 1]
         mine = [e for e in events if e["cid"] == b["cid"] and e["ev"] == "arr"]
         upto = mine.index(ev) + 1
-        sig = "prison/%s/th%d/%s" % (b["why"], c["th"], c["kind"])
-        det = ("Threshold=%d CheckPeriod=%dus StayPeriod=%dus; arrivals of the case up to the failing one "
-               "(key, lo us, hi us, denied): %s" % (c["th"], c["cp_us"], c["sp_us"],
-                                                    [(e["k"], e["lo"], e["hi"], e["deny"]) for e in mine[:upto]][-14:]))
+        sig = "prison/%s/th%d/%s" % (b["why"], rule["th"], c["kind"])
+        if len(c["rules"]) > 1:
+            sig += "/r%d:%s" % (ri, ">".join(r["action"] for r in c["rules"]))
+        det = ("rules %s, verdicts of rule %d: Threshold=%d CheckPeriod=%dus StayPeriod=%dus; arrivals of the case up to "
+               "the failing one (key, lo us, hi us, denied by this rule, unobservable): %s" %
+               (c["rules"], ri, rule["th"], c["cp_us"], c["sp_us"],
+                [(e["k"], e["lo"], e["hi"], e["deny"], e["u"]) for e in mine[:upto]][-14:]))
         rc = {k: c[k] for k in c if k != "id"}
         rc["arr"] = c["arr"][:upto]
         ctx.report(sig, det, case=rc, harness="mods1", cmd="prison")
     for c in cases:
-        ctx.count([c["th"], c["kind"], c["arr"]], nontrivial=len(c["arr"]) > c["th"])
+        ctx.count([c["rules"], c["kind"], c["arr"]], nontrivial=len(c["arr"]) > c["th"])
     tot = rep["free"] + rep["decided"]
     ctx.cov.setdefault("prison_events", {"decided": 0, "either_way": 0})
     ctx.cov["prison_events"]["decided"] += rep["decided"]
@@ -410,8 +437,8 @@ def run_prison(ctx, cases, label=""):
     if rep["drift"]:
         ctx.drift("action=Arrive %d recorded verdicts differ from the counter/jail mechanism model, e.g. %s" %
                   (len(rep["drift"]), [events[d["l"] - 1] for d in rep["drift"][:2]]))
-    c = cases[0]
-    ctx.sample({"schedule": c, "recorded": [e for e in events if e["cid"] == c["id"]][:10]})
+    c = cases[-1]
+    ctx.sample({"schedule": c, "recorded": [e for e in events if e["cid"] // 10 == c["id"]][:12]})
     return nbad
 
 
@@ -420,8 +447,19 @@ def check_c53(ctx):
     mcs = [(2, 1, 0, 10, 5), (2, 2, 1, 10, 5), (2, 0, 1, 10, 5)] if q else \
           [(2, th, s, 12, 6) for th in (0, 1, 2) for s in (0, 1)] + [(1, th, s, 17, 7) for th in (0, 1, 2) for s in (0, 1)]
     for nk, th, s, maxt, maxarr in mcs:
-        d = {"NKEYS": nk, "TH": th, "P": 3, "J": 2, "S": s, "MAXT": maxt, "MAXARR": maxarr}
+        d = {"NKEYS": nk, "NRULES": 1, "TH": th, "TH2": 0, "ACT1": "CLOSE", "ACT2": "CLOSE", "P": 3, "J": 2, "S": s,
+             "MAXT": maxt, "MAXARR": maxarr}
         ctx.cov["constants"]["Prison_MC(keys=%d,th=%d,slack=%d)" % (nk, th, s)] = d
+        ctx.tlc_must_pass(SPEC, "Prison", "Prison_MC.cfg", defines=d, timeout=2400)
+    # rule lists: two rules matching the same request, per-rule windows, every ordered pair of kinds
+    # (terminal / non-terminal) that behaves differently
+    lists = [("REQ_HEADER_SET", "CLOSE", 1, 2), ("CLOSE", "REQ_HEADER_SET", 1, 2)] if q else \
+            [(a1, a2, t1, t2) for a1 in ("PASS", "REQ_HEADER_SET", "CLOSE", "FINISH") for a2 in ("REQ_HEADER_SET", "CLOSE")
+             for t1, t2 in ((1, 2), (2, 1), (0, 1))]
+    for a1, a2, t1, t2 in lists:
+        d = {"NKEYS": 1, "NRULES": 2, "TH": t1, "TH2": t2, "ACT1": a1, "ACT2": a2, "P": 3, "J": 2, "S": 1,
+             "MAXT": 10, "MAXARR": 6}
+        ctx.cov["constants"]["Prison_MC(rules=%s:%d>%s:%d)" % (a1, t1, a2, t2)] = d
         ctx.tlc_must_pass(SPEC, "Prison", "Prison_MC.cfg", defines=d, timeout=2400)
     cases = []
     for th in ((2,) if q else (0, 1, 2)):
@@ -432,6 +470,13 @@ def check_c53(ctx):
             raise vlib.MachineryError("GenPrison failed: %s %s" % (g.error or g.violation, g.out[-500:]))
         cases += [prison_case(c["th"], c["p"], c["j"], c["arr"]) for c in g.cases if c["arr"]]
     cases += [prison_case(th, 3, 2, arr) for th, arr in seeded_schedules(ctx, 150 if q else 400, 1)]
+    # rule lists: the same kind of schedules against products with two rules (all 16 action pairs)
+    sch = seeded_schedules(ctx, 96 if q else 320, 3)
+    cases += [prison_case(max(r["th"] for r in rl), 3, 2, arr, rules=rl)
+              for (th, arr), rl in zip(sch, rule_lists(ctx, len(sch), 4))]
+    sch = seeded_schedules(ctx, 16 if q else 32, 5, maxt=26)
+    cases += [prison_case(max(r["th"] for r in rl), 3, 3, arr, kind="real", rules=rl)
+              for (th, arr), rl in zip(sch, rule_lists(ctx, len(sch), 6))]
     # a few schedules with the periods exactly as the rule file gives them (seconds): binds the unit conversion
     cases += [prison_case(th, 3, 3, arr, kind="real") for th, arr in seeded_schedules(ctx, 20 if q else 60, 2, maxt=26)]
     ctx.cov["constants"]["trace"] = {"tick_us": TICK_US, "CheckPeriod_us": 3 * TICK_US + TICK_US // 2, "StayPeriod_us": 2 * TICK_US,
@@ -439,7 +484,7 @@ def check_c53(ctx):
     ctx.cov["rule"] = ("TLC checks exhaustively that the counter/jail mechanism satisfies Layer P (never denied with <= "
                        "Threshold arrivals in the last CheckPeriod; denied from the (Threshold+1)-th arrival of a fresh "
                        "key's first period until first arrival + CheckPeriod + StayPeriod; re-admitted after expiry; per "
-                       "key). cases = TLC-simulated and seeded arrival schedules played in real time against mod_prison "
+                       "key and per rule of a rule list). cases = TLC-simulated and seeded arrival schedules played in real time against mod_prison "
                        "(rule file loaded by the module, prisonHandler invoked through the HandleFoundProduct callback "
                        "list), recorded (key, time before, time after, verdict) validated by TLC against Layer P with a "
                        "slack zone around every decision boundary. distinct = schedules with more arrivals than Threshold.")
